@@ -23,6 +23,8 @@ func solverCfgs(timeoutS int) []SolverCfg {
 		{"z3-5.1.0", []string{"z3-new", "-T:" + fmt.Sprint(timeoutS), "-t:" + ms}},
 		{"z3-4.8.12", []string{"/usr/bin/z3", "-T:" + fmt.Sprint(timeoutS), "-t:" + ms}},
 		{"cvc5-1.0", []string{"cvc5", "--lang=smt2", "--tlimit=" + ms}},
+		{"cvc5-1.0(enum-inst)", []string{"cvc5", "--lang=smt2", "--enum-inst", "--tlimit=" + ms}},
+		{"z3-5.1.0(arith2)", []string{"z3-new", "-T:" + fmt.Sprint(timeoutS), "-t:" + ms, "smt.arith.solver=2"}},
 	}
 }
 
